@@ -1,3 +1,4 @@
+import AmrK.TasteDataProofs
 import AmrK.TasteProofs
 import AmrK.TasteCoordsProofs
 import AmrK.TasteComplete
@@ -98,5 +99,25 @@ theorem shifted_bound_rejected (lo hi dx : Rat) (n : Nat) (i0 i1 : Nat) (h0 : i0
 
 example : TasteCoords.axisOK (-1) 3 (1/2) 8 2 5 0 2 = some true ∧ TasteCoords.axisOK (-1) 3 (1/2) 8 2 5 (1/2) 2 = some false ∧
     TasteCoords.axisOK (-1) 3 (1/2) 8 2 8 0 2 = none ∧ TasteCoords.axisOK (-1) 3 (1/2) 8 (-6) 5 0 2 = some true := by decide +kernel
+
+/-- **what acceptance of the binary data means** (`binary_data`): every FAB the sequential scan meets has a row, every
+    checked component exists in it, and the recorded minimum / maximum is `np.isclose(..., equal_nan=True)` to the extremum
+    of the stored values: both NaN, the same infinity, or two finite numbers within numpy's band `1e-8 + 1e-5·|stored|` -/
+theorem binary_data_sound (fields : List Nat) (rows : List (List (Extrema.V × Extrema.V))) (fabs : List (Taste.Hdr × Py.Bytes))
+    (hg : TasteData.fileOK fields rows fabs = .good) :
+    fabs.length ≤ rows.length ∧
+    ∀ (i : Nat) (r : List (Extrema.V × Extrema.V)) (p : Taste.Hdr × Py.Bytes), rows[i]? = some r → fabs[i]? = some p →
+      ∀ f ∈ fields, f < p.1.nf.toNat ∧ ∃ mn mx hmn hmx,
+        TasteData.fabExtrema p.2 (Reader.ncells p.1).toNat f = some (mn, mx) ∧ r[f]? = some (hmn, hmx) ∧
+        TasteData.vclose hmn mn = true ∧ TasteData.vclose hmx mx = true := by
+  obtain ⟨h1, h2⟩ := TasteData.fileOK_sound fields rows fabs hg
+  exact ⟨h1, fun i r p hr hp => TasteData.fabOK_sound fields r p.1 p.2 (h2 i r p hr hp)⟩
+
+/-- … where closeness is exactly: -/
+theorem binary_data_close (a b : Extrema.V) :
+    TasteData.vclose a b = true ↔
+      (a = .nan ∧ b = .nan) ∨ (a = .pinf ∧ b = .pinf) ∨ (a = .ninf ∧ b = .ninf) ∨
+      ∃ x y, a = .fin x ∧ b = .fin y ∧ |x - y| ≤ TasteCoords.tol y :=
+  TasteData.vclose_iff a b
 
 end C04
